@@ -34,7 +34,7 @@ FamilyFails(r) ==
 RewardFails(r, act, k) ==
   LET s == SupSeq(r, act)[k]
       rc == r.rew[1]
-  IN IF ~RewardPre(rc, r.st, s) THEN {}
+  IN IF ~InGrid(s.grid, s.pos) \/ ~RewardPre(rc, r.st, s) THEN {}
      ELSE W(r, "C01", "C01.rtype", act.rtype[k] = "float" /\ act.rfinite[k])
           \cup W(r, "C12", "C12.reward",
                  \/ (~AgentOK(r.st) /\ act.a \notin MoveActions)  \* outside the domain of bump_into_wall
@@ -43,6 +43,7 @@ TermFails(r, act, k) ==
   LET s == SupSeq(r, act)[k]
   IN W(r, "C01", "C01.dtype", act.dtype[k] = "bool")
      \cup W(r, "C12", "C12.term",
+            \/ ~InGrid(s.grid, s.pos)
             \/ (~AgentOK(r.st) /\ act.a \notin MoveActions)
             \/ act.done[k] = Terminates(r.term[1], r.st, act.a, s))
 
